@@ -544,6 +544,72 @@ func vdrCase(c *Ctx, focus string) {
 		}
 		return nil
 	})
+	// (v) the pipestance-level report is the sum of the per-fork reports
+	type krep struct {
+		Paths []string `json:"paths"`
+		Count uint     `json:"count"`
+		Size  uint64   `json:"size"`
+	}
+	readRep := func(p string) *krep {
+		b, err := os.ReadFile(p)
+		if err != nil {
+			return nil
+		}
+		var k krep
+		if json.Unmarshal(b, &k) != nil {
+			return nil
+		}
+		return &k
+	}
+	if topRep := readRep(path.Join(r.PsDir, "_vdrkill")); topRep != nil {
+		var sumCount uint
+		var sumSize uint64
+		var partCount uint
+		var partSize uint64
+		var detail []string
+		all := map[string]int{}
+		filepath.Walk(r.PsDir, func(p string, info os.FileInfo, err error) error {
+			if err != nil || info == nil || info.IsDir() || path.Dir(p) == r.PsDir {
+				return nil
+			}
+			switch info.Name() {
+			case "_vdrkill":
+				if k := readRep(p); k != nil {
+					sumCount += k.Count
+					sumSize += k.Size
+					if k.Count > 0 {
+						detail = append(detail, fmt.Sprintf("%s: %d/%d", strings.TrimPrefix(path.Dir(p), r.PsDir+"/"), k.Count, k.Size))
+					}
+					for _, kp := range k.Paths {
+						all[kp]++
+					}
+				}
+			case "_vdrkill.partial":
+				if _, err := os.Stat(path.Join(path.Dir(p), "_vdrkill")); err != nil {
+					if k := readRep(p); k != nil {
+						partCount += k.Count
+						partSize += k.Size
+					}
+				}
+			}
+			return nil
+		})
+		c.Res.Probes["pipestance-level-report-checked"]++
+		if topRep.Count < sumCount || topRep.Size < sumSize || topRep.Count > sumCount+partCount || topRep.Size > sumSize+partSize {
+			add("C14", "pipestance-report-differs-from-fork-reports", fmt.Sprintf("_vdrkill of the pipestance reports %d files / %d bytes, the per-fork reports add up to %d files / %d bytes (unfinished partial reports: %d / %d): %s",
+				topRep.Count, topRep.Size, sumCount, sumSize, partCount, partSize, strings.Join(detail, "; ")))
+		}
+		topPaths := map[string]bool{}
+		for _, kp := range topRep.Paths {
+			topPaths[kp] = true
+		}
+		for kp := range all {
+			if !topPaths[kp] {
+				add("C14", "pipestance-report-differs-from-fork-reports", fmt.Sprintf("_vdrkill of the pipestance does not list %s, which a fork's report lists", strings.TrimPrefix(kp, r.PsDir+"/")))
+				break
+			}
+		}
+	}
 	if len(c.Res.Violations) > 0 || c.Keep || c.Res.Sample == nil {
 		s := describeRun(r, true)
 		s["vdrmode"] = mode
